@@ -22,8 +22,8 @@ type Sent struct {
 	BodySHA   string      `json:"body_sha256"`
 	// wire statistics (h2)
 	DataFrames, PaddedFrames, EmptyFrames, HeaderFrames int
-	MinFrame, MaxFrame                                   int
-	Complete                                             bool `json:"complete"`
+	MinFrame, MaxFrame                                  int
+	Complete                                            bool `json:"complete"`
 }
 
 // Got is what the client received.
